@@ -574,14 +574,24 @@ namespace cds { namespace intrusive {
         {
             assert( iter != end());
 
+            back_off bkoff;
             marked_data_ptr val( iter.data());
-            if ( iter.m_pNode->data.compare_exchange_strong( val, marked_data_ptr(), memory_model::memory_order_acquire, atomics::memory_order_relaxed )) {
-                --m_ItemCounter;
-                retire_data( val.ptr());
-                m_Stat.onEraseSuccess();
-                return true;
+            while ( !iter.m_pNode->data.compare_exchange_strong( val, marked_data_ptr(), memory_model::memory_order_acquire, atomics::memory_order_relaxed )) {
+                if ( val.ptr() != iter.data()) {
+                    // the item has been deleted or replaced by another thread
+                    return false;
+                }
+
+                // The item is the same but it is temporary marked as undeletable
+                // by a concurrent insertion of a neighbour item - try again
+                val = marked_data_ptr( iter.data());
+                bkoff();
             }
-            return false;
+
+            --m_ItemCounter;
+            retire_data( val.ptr());
+            m_Stat.onEraseSuccess();
+            return true;
         }
 
         /// Extracts the item from the list with specified \p key
